@@ -18,8 +18,8 @@ def judge(ctx, case, prop, res=None):
 
 
 def replay(ctx, case, prop):
-    judge(ctx, case, prop)
-    if prop == "C06":
+    res = judge(ctx, case, prop)
+    if prop == "C06" and not any(p == "C06" for p, _, _ in res["failures"]):  # (clean_all() has no limit of its own: never after a hang)
         rep = _tree.clean_all_reports(case)
         if rep:
             ctx.fail("clean_all-swallowed-an-error", slim(case), rep)
